@@ -51,7 +51,7 @@ mod proofs {
         std::mem::forget(dec); std::mem::forget(ctx);
     }
 
-    // @harness id=C01 tier=quick unwind=10 timeout=2400 fs=4096
+    // @harness id=C01 tier=thorough unwind=10 timeout=2400 fs=4096
     // @desc BGV decryption of an ARBITRARY size-2 NTT-form ciphertext returns, coefficient-wise, the centred phase reduced modulo t (times the inverse correction factor), and the plaintext is trimmed to its LEADING non-zero coefficient (a zero coefficient below the leading one is kept), never below one coefficient
     // @bounds BGV N=2, q={97}, t=17; all ciphertext residues (given in NTT form); secret key s = 1 - X (concrete); correction factor 1 or 3 (symbolic choice)
     // @funcs Decryptor::decrypt, Decryptor::bgv_decrypt, Decryptor::dot_product_ct_sk_array, RNSTool::decrypt_mod_t, BaseConverter::exact_convey_array, polysmallmod::{intt_p,multiply_scalar_inplace}, get_significant_uint64_count_uint, Plaintext::resize
@@ -197,6 +197,38 @@ mod proofs {
     }
 
     // @harness id=C07 tier=quick unwind=10 timeout=2400 fs=4096
+    // @desc invariant_noise_budget(ct) equals the definition evaluated exactly: budget = max(0, bits(q) - bits(max_i |t*phase_i mod q|_centered) - 1) for the phase under the secret key, for EVERY ciphertext/key (also those with zero budget)
+    // @bounds BFV N=2, q={97}, t=3; c1 = 5 + 91 X (concrete), every c0 (hence every phase); secret key s = 1 - X; all four ciphertext residues symbolic: thorough harness c07_noise_budget_is_definition
+    // @funcs Decryptor::invariant_noise_budget, Decryptor::dot_product_ct_sk_array, poly_infty_norm, RNSBase::compose_array, half_round_up_uint, get_significant_bit_count_uint
+    // @stubs HeContext::get_context_data -> linear search over the literal chain; alloc::sync::Arc::drop_slow -> no-op
+    #[kani::proof]
+    #[kani::stub(crate::context::HeContext::get_context_data, crate::context::verif_v::get_context_data_stub)]
+    #[kani::stub(alloc::sync::Arc::drop_slow, crate::verif_v::arc_drop_slow_noop)]
+    fn c07_noise_budget_is_definition_fixed_c1() {
+        let ctx = lits::ctx_bfv_n2_1p();
+        let pid = *ctx.first_parms_id();
+        let q = 97u64; let t = 3u64;
+        let s = [1u64, q - 1];                                   // s = 1 - X (concrete: a symbolic key does not finish)
+        let mut s_ntt = s;
+        { let cd = ctx.key_context_data().unwrap(); polymod::ntt_p(&mut s_ntt, 2, cd.small_ntt_tables()); std::mem::forget(cd); }
+        let dec = mk_decryptor(ctx.clone(), s_ntt.to_vec());
+        let c: [u8; 2] = kani::any(); kani::assume(c[0] < 97 && c[1] < 97);
+        let cv = [c[0] as u64, c[1] as u64, 5, 91];                 // c1 = 5 + 91 X concrete: the key product is concrete, every phase is still reached through c0
+        let ct = mk_ciphertext(2, 1, 2, cv.to_vec(), pid, 1.0, false, 1);
+        let b = dec.invariant_noise_budget(&ct);
+        let ph0 = (cv[0] + cv[2] * s[0] + (q * q - cv[3] * s[1])) % q;
+        let ph1 = (cv[1] + cv[2] * s[1] + cv[3] * s[0]) % q;
+        let cen = |x: u64| { let y = (t * x) % q; if y >= (q + 1) / 2 { q - y } else { y } };
+        let norm = if cen(ph0) > cen(ph1) { cen(ph0) } else { cen(ph1) };
+        let bits = |x: u64| (64 - x.leading_zeros()) as isize;
+        let e = bits(q) - bits(norm) - 1;
+        kani::cover!(e > 3);
+        kani::cover!(e == 0);                                    // zero budget (norm has bits(q)-1 bits); e < 0 cannot occur since the centred norm is below q/2
+        assert!(b as isize == if e < 0 { 0 } else { e });
+        std::mem::forget(dec); std::mem::forget(ctx);
+    }
+
+    // @harness id=C07 tier=thorough unwind=10 timeout=2400 fs=4096
     // @desc invariant_noise_budget(ct) equals the definition evaluated exactly: budget = max(0, bits(q) - bits(max_i |t*phase_i mod q|_centered) - 1) for the phase under the secret key, for EVERY ciphertext/key (also those with zero budget)
     // @bounds BFV N=2, q={97}, t=3; all ciphertext residues; secret key s = 1 - X
     // @funcs Decryptor::invariant_noise_budget, Decryptor::dot_product_ct_sk_array, poly_infty_norm, RNSBase::compose_array, half_round_up_uint, get_significant_bit_count_uint
